@@ -33,24 +33,27 @@ def run_one(t):
     try:
         if ctx.put_rec.ret is not True or ctx.put_rec.exc is not None:
             w.violate("C02.put_accepted", f"ret={ctx.put_rec.ret} exc={ctx.put_rec.exc!r}", "")
-        judge(w, ctx.reason, ctx.info.get("base_ind", 0), ctx.info.get("base_fault", 0))
+        judge(w, ctx.reason, ctx.info.get("base_ind", 0), ctx.info.get("base_fault", 0), ctx.info.get("base_lib_excs"), ctx.info.get("base_internal", 0))
         return from_world(w, ctx.pop, ctx.nontrivial)
     finally:
         w.close()
 
 
-def judge(w: World, reason: str, base_ind: int = 0, base_fault: int = 0) -> None:
+def judge(w: World, reason: str, base_ind: int = 0, base_fault: int = 0, base_lib=None, base_internal: int = 0) -> None:
     cfg = w.cfg
     tag = f"mode={cfg.mode.name[:5]} closure={cfg.closure} md_only={cfg.metadata_only} empty={cfg.size == 0}"
     if reason != "quiet":
         sa = w.a.handlers["src"].step.name
         sb = w.b.handlers["dst"].step.name
         w.violate("C02.completes", f"{tag} stuck src={sa} dst={sb}", f"run ended by {reason}")
-    if w.internal_errors:
-        e = w.internal_errors[0]
+    # exceptions raised while an earlier (possibly cancelled) prelude transaction ran are not this transfer's
+    internal = w.internal_errors[base_internal:]
+    lib = {k: v - (base_lib or {}).get(k, 0) for k, v in w.lib_excs.items() if v - (base_lib or {}).get(k, 0) > 0}
+    if internal:
+        e = internal[0]
         w.violate("C02.no_exception", f"{e.cls}@{e.func}", e.msg)
-    elif w.lib_excs:
-        w.violate("C02.no_exception", "lib:" + ",".join(sorted(w.lib_excs)), tag)
+    elif lib:
+        w.violate("C02.no_exception", "lib:" + ",".join(sorted(lib)), tag)
     # indications / faults
     ind_log = w.ind_log[base_ind:]
     fault_log = w.fault_log[base_fault:]
